@@ -10,6 +10,7 @@ use std::alloc::{GlobalAlloc, Layout, System};
 use std::io::Cursor;
 use std::sync::atomic::{AtomicUsize, Ordering};
 
+mod cipher;
 mod codec;
 mod conn;
 mod packets;
@@ -70,6 +71,7 @@ fn main() {
         "packets" => packets::roundtrip(seed),
         "locale" => conn::locale(seed),
         "limits" => conn::limits(seed),
+        "cipher" => cipher::schedules(seed),
         "cookie_unparseable" => conn::cookie_unparseable(seed),
         "malformed" => packets::malformed(seed),
         other => {
